@@ -2,7 +2,8 @@
 CFG = dict(
     claim="FULL (fault-free clauses) + the clauses that survive faults. Model: coq/Model/Sys.v (client model x server model x two FIFO wires), "
           "arbitrary caller and handler programs, any number of streams and unary calls, any interleaving. coq/Props/C02.v. FAULT-FREE runs "
-          "(no read failure, no write failure or blocked write, no Stop, no cancellation of Serve's context), no reset written by the client: "
+          "(no read failure, no write failure or blocked write, no Stop, no cancellation of Serve's context); the caller->handler clauses ask "
+          "that the client wrote no reset under the id of THAT stream (other streams may be cancelled or reset): "
           "C02_prefix_c2h (the RecvMsg results of a stream handler are the classifications of a PREFIX of the envelopes its caller wrote on "
           "the stream after the opening one - SendMsg's bodies, CloseSend's trailer - in order: nothing lost, duplicated, reordered, altered, "
           "fabricated); C02_prefix_h2c (the messages the caller's RecvMsg returned are a PREFIX of the messages in the envelopes the server's "
@@ -23,7 +24,7 @@ CFG = dict(
           "(subsequence: a gap is an envelope dropped because its receiver had gone or was reset); C02_handler_eof_sound, "
           "C02_handler_recv_was_sent, C02_caller_eof_sound (io.EOF at the handler only if the caller half-closed; every message received was "
           "sent; io.EOF at the caller only if the handler returned nil). Hypotheses stated on states, not labels: 'no reset written' is "
-          "forall e, In (EvWrite e) log -> erst e = false (global, all streams); 'caller's context not ended' is ctx_done (k_ctx k) = false; "
+          "forall e, In (EvWrite e) log -> eid e = id of the stream -> erst e = false (per stream); 'caller's context not ended' is ctx_done (k_ctx k) = false; "
           "head-of-line blocking is why the Q-forms ask for empty inboxes. The tie: the boolean predicates spec_c02 of coq/Check/C02c.v "
           "(position-wise delivery in both directions, handler EOF only after half-close with nothing outstanding, caller EOF only after the "
           "handler returned nil with nothing outstanding, no non-EOF failure of a successful stream - the Canceled-instead-of-EOF outcome -, "
